@@ -21,6 +21,7 @@ HARNESSES = {
     'k_names_len_first': (('C01', 'C03', 'C04', 'C09'), True, 'the 4 listed name pairs of different UTF-16 length, with supplementary-plane characters', 'quick'),
     'k_path_normalisation': (('C01', 'C09', 'C10'), True, 'the 12 listed paths (., .., //, leading /, climbing above the root)', 'quick'),
     'k_timestamp_from_system_time': (('C17',), False, None, 'thorough'),
+    'k_stream_buffer_write_listed': (('C06', 'C18'), True, 'the listed sizes (1025 bytes into an empty 1024-byte buffer that cannot grow, a full buffer, 10 bytes after clear)', 'quick'),
     'k_timestamp_listed_instants': (('C17',), True, 'the six listed instants (1970, sub-tick fractions on both sides, beyond i64 ticks, saturation at both ends)', 'quick'),
 }
 
@@ -71,8 +72,17 @@ def run_for_property(prop, tier, seed):
     try:
         dst = os.path.join(scratch, 'cfb')
         shutil.copytree(REPO, dst, ignore=shutil.ignore_patterns('target', '.git'))
-        with open(os.path.join(dst, 'src', 'lib.rs'), 'a') as f:
-            f.write('\n' + open(os.path.join(ROOT, 'kani', 'harness.rs')).read())
+        # harness.rs is appended to src/lib.rs; a section that starts with a line `//@append <path>` goes to the end of that
+        # source file instead (for harnesses on items that are private to a module)
+        target, parts = 'src/lib.rs', {}
+        for ln in open(os.path.join(ROOT, 'kani', 'harness.rs')).read().split('\n'):
+            if ln.startswith('//@append '):
+                target = ln.split()[1]
+                continue
+            parts.setdefault(target, []).append(ln)
+        for target, lines in parts.items():
+            with open(os.path.join(dst, target), 'a') as f:
+                f.write('\n' + '\n'.join(lines) + '\n')
         env = dict(os.environ, CARGO_NET_OFFLINE='true')
         for h in todo:
             cmd = ['cargo', 'kani', '--harness', h]
